@@ -275,6 +275,8 @@ def analyse(unit, path, text, regions, res, canary_marks=None):
                         region, repo_line = r2, l2
                     break
         fn = region.key if region else enclosing_fn(lines, line)
+        panic_prop = region.implicit[0] if (region and region.implicit) else 'C18'
+        term_prop = region.implicit[0] if (region and region.implicit) else 'C17'
         # where is the failed clause (for preconditions): in vstd / prelude => implicit panic site
         failed_clause_external = any((s.get('label') or '').startswith('failed') is False and False for s in spans)
         ext = [s for s in spans if os.path.basename(s['file_name']) != base]
@@ -286,9 +288,9 @@ def analyse(unit, path, text, regions, res, canary_marks=None):
             label = ';'.join(n.strip() for _, n in labels)
         else:
             if kind in ('arithmetic-overflow', 'division-by-zero', 'panic'):
-                props.add('C18')
+                props.add(panic_prop)
             elif kind == 'termination':
-                props.add('C17')
+                props.add(term_prop)
             elif kind == 'precondition':
                 # callee precondition without label: std/prelude panic site => C18; otherwise the caller's properties
                 sec = [s for s in spans if not s.get('is_primary')]
@@ -299,11 +301,11 @@ def analyse(unit, path, text, regions, res, canary_marks=None):
                 if region and (callee_in_region or operator_pre):
                     props.update(region.props)
                 if not callee_in_region:
-                    props.add('C18')
+                    props.add(panic_prop)
             elif kind == 'assertion':
                 src = lines[line - 1]
                 if re.search(r'\bassert\s*!', src):
-                    props.add('C18')
+                    props.add(panic_prop)
                 elif region:
                     props.update(region.props)
             elif region:
@@ -338,9 +340,9 @@ def obligations_of(unit, text, regions):
             obs.append(dict(unit=unit, function=fn, label=name.strip(), props=pl.split(','), line=i,
                             text=re.sub(r'\s+', ' ', l.split('//')[0]).strip()[:160]))
     for r in regions:
-        if r.kind == 'fn':
+        if r.kind == 'fn' or (r.kind == 'impl' and r.implicit):
             obs.append(dict(unit=unit, function=r.key, label='<implicit: no panic, no overflow, termination, unlabelled clauses>',
-                            props=sorted(set(r.props) | {'C17', 'C18'}), line=r.out_line0, text=r.file + ':' + str(r.repo_line0)))
+                            props=sorted(set(r.props) | (set(r.implicit) or {'C17', 'C18'})), line=r.out_line0, text=r.file + ':' + str(r.repo_line0)))
     return obs
 
 
